@@ -77,6 +77,13 @@ def primary_cases():
                                                          ('dtn://rpt/', 'dtn:none', 'ipn:8.0'), (0, 2 ** 32)):
         yield mk(dict(primary='life=%d dest=%s src=%s rpt=%s seq=%d' % (life, dest, src, rpt, seq)),
                  lifetime=life, dest=dest, src=src, report_to=rpt, ts=(700000000000, seq))
+    # a received fragment larger than the MTU of the route: fragments are not cut again, the bundle
+    # leaves with its offset and total length
+    for (off, total, n) in ((0, 5000, 400), (1000, 5000, 400), (4600, 5000, 400)):
+        (lab, b) = mk(dict(primary='fragment [%d,%d) of %d on an MTU-250 route' % (off, off + n, total), mtu=250),
+                      flags=B.FLAG_IS_FRAGMENT, frag_offset=off, total_adu=total)
+        b['blocks'][-1]['data'] = bytes((i * 11 + 5) & 0xFF for i in range(n))
+        yield (lab, b)
     for mask in range(1 << len(FLAG_BITS)):
         flags = sum(bit for (i, bit) in enumerate(FLAG_BITS) if mask >> i & 1)
         yield mk(dict(primary='flags=%#x' % flags), flags=flags)
